@@ -384,6 +384,21 @@ def hampel (cfg : HampelCfg) (z : Series) : Except Err Series :=
   else if cfg.w + 1 > z.length then .error .value
   else .ok ((List.range (z.length - cfg.w)).foldl (fun cur a => hampelWindow cfg cur a) z)
 
+/-- all constructor parameters of `HampelFilter`: the filter's own (`HampelCfg`) and `return_bool` -/
+structure HampelPar where
+  cfg : HampelCfg
+  retBool : Bool
+
+/-- `Z.apply(lambda x: True if np.isnan(x) else False)`: the flags (True = 1, False = 0) stay on the
+time points of the filtered series -/
+def hampelFlags (z : Series) : Series := z.map (fun p => (p.1, some (if p.2.isNone then (1 : Rat) else 0)))
+
+/-- `HampelFilter._transform_series`: the filter, then the `return_bool` post-processing -/
+def hampelOut (p : HampelPar) (z : Series) : Except Err Series :=
+  match hampel p.cfg z with
+  | .error e => .error e
+  | .ok r => .ok (if p.retBool then hampelFlags r else r)
+
 -- ---------------------------------------------------------------------------------------------
 -- the transformer machine
 
@@ -391,7 +406,7 @@ inductive TState
   | des (s : Des)
   | det (s : Det)
   | col (s : Col)
-  | hampel (cfg : HampelCfg) (fitted : Bool)
+  | hampel (cfg : HampelPar) (fitted : Bool)
   /-- OptionalPassthrough(transformer, passthrough): `proto` = the `transformer` parameter,
       `inner` = `transformer_` (meaningful once `hasInner`) -/
   | pass (proto inner : TState) (hasInner passthrough fitted : Bool)
@@ -444,7 +459,7 @@ def stepBasic (reg : Reg) (st : TState) (op : Op) : TState × Out :=
         if !fitted then (st, .err .notfitted)
         else match checkSeries false inp with
           | .error e => (st, .err e)
-          | .ok z => match hampel cfg z with
+          | .ok z => match hampelOut cfg z with
             | .error e => (st, .err e)
             | .ok r => (st, .ser r)
       | .inverse _ _ => (st, .err .attr)
